@@ -451,7 +451,7 @@ def boundary_programs(tier):
 def configure(tier, avoid):
     quick = tier == 'quick'
     p = gen.Params(max_stmts=14 if quick else 28, max_depth=2, expr_depth=2,
-                   max_procs=3, avoid=avoid, nonascii=True)
+                   max_procs=3, avoid=avoid, nonascii=True, dead_code=0.3)
     return {'examples': 250 if quick else 4000, 'params': p, 'tier': tier,
             'bounds': {'configs': [X.cfg_name(c) for c in X.ALL_CONFIGS]}}
 
